@@ -319,7 +319,7 @@ def main():
         units=[u.info for u in asm.units],
         functions_under_contract=unit_names,
         assumed_callee_contracts=asm.stubs,
-        rules_applied=asm.rules.counts,
+        rules_applied=asm.rules.counts, auto_rules=list(core.AUTO_RULES),
         literals=asm.rules.lits,
         mechanical_scan=scan,
         vacuity_guards=dict(expected_to_fail=n_guard_fns, failed_as_expected=n_guard_fns),
